@@ -182,6 +182,7 @@ class BuildSession(object):
         self.run_order = None    # [(exec, suite, bench)] in the order the executor iterates
         self.all_runs = None     # same before the --setup-only selection
         self.status = {}         # (exec, suite, bench) -> dict(is_failed, completed)
+        self.done0 = {}          # (exec, suite, bench) -> invocations recorded before this session
         self.picks = []
         self.pick_kinds = []
         self.stuck = None
@@ -193,7 +194,7 @@ def run_key(run):
     return (run.benchmark.suite.executor.name, run.benchmark.suite.name, run.benchmark.name)
 
 
-def run_build_session(workdir, conf, argv, build_result, cpu_count=1, choices=None, choose=None):
+def run_build_session(workdir, conf, argv, build_result, cpu_count=1, choices=None, choose=None, bench_rc=None):
     """one session; `build_result(script, cwd)` -> 'ok' | 'fail' | 'oserr'.
 
     choices: values for random.choice (index = value % len); choose: the thread
@@ -212,6 +213,10 @@ def run_build_session(workdir, conf, argv, build_result, cpu_count=1, choices=No
                 return drive.Outcome(oserror=2)
             return LazyOutcome(rec, lambda r: 0 if build_result(r['stdin'], r['cwd']) == 'ok' else 1,
                                out='build output\n')
+        if bench_rc is not None:
+            rc = bench_rc(rec)
+            if rc != 0:
+                return drive.Outcome(rc=rc, out='benchmark failed\n')
         return drive.Outcome(rc=0, out='1.0\n')
 
     orig_run = swt.run
@@ -251,6 +256,8 @@ def run_build_session(workdir, conf, argv, build_result, cpu_count=1, choices=No
     def exec_exp(self, runs, *a, **kw):
         captured['runs'] = runs
         bs.run_order = [run_key(r) for r in runs]
+        # invocations recorded by earlier sessions (data file loaded before this point)
+        bs.done0 = {run_key(r): r.completed_invocations for r in runs}
         return orig_exec_exp(self, runs, *a, **kw)
 
     def get_runs(self):
